@@ -201,6 +201,14 @@ r4 = mass_fractions(dict(arrc), substances=subs)
 tot2 = sum((2 * coeffs[k] + 1) * masses[k] for k in coeffs)
 for k in coeffs:
     if r4[k][0] != coeffs[k] * masses[k] / tot or r4[k][1] != (2 * coeffs[k] + 1) * masses[k] / tot2: bad.append("array-valued coefficients: fraction of %%s is %%s" %% (k, list(r4[k])))
+from collections import Counter
+r5 = mass_fractions(Counter(coeffs), substances=subs)
+for k in coeffs:
+    if r5[k] != coeffs[k] * masses[k] / tot: bad.append("Counter mixture: fraction of %%s is %%s expected %%s" %% (k, r5[k], coeffs[k] * masses[k] / tot))
+reg = OrderedDict(subs); reg["Xtra"] = Substance("Xtra", composition={1: 1}, data={"mass": masses["S0"]})
+r7 = mass_fractions(set(coeffs), substances=reg)
+totm = sum(masses[k] for k in coeffs)
+if set(r7) != set(coeffs) or any(r7[k] != masses[k] / totm for k in coeffs): bad.append("set mixture with a larger registry: %%s" %% (r7,))
 r2 = mass_fractions({"H2O": float(coeffs["S0"]), "Fe+3": float(coeffs["S1"])})
 mw, mf = Substance.from_formula("H2O").mass, Substance.from_formula("Fe+3").mass
 e2 = float(coeffs["S0"]) * mw / (float(coeffs["S0"]) * mw + float(coeffs["S1"]) * mf)
@@ -218,6 +226,8 @@ def task_fractions(nsub):
     masses = {k: Real("m_" + k) for k in keys}
     assum = [v.t > 0 for v in coeffs.values()] + [v.t > 0 for v in masses.values()]
 
+    kinds = []
+
     def run():
         from collections import OrderedDict
         # the substances mapping is given in the reverse order of the stoichiometry (e.g. a ReactionSystem.substances dict)
@@ -232,6 +242,15 @@ def task_fractions(nsub):
         arrc = {k: np.array([coeffs[k], 2 * coeffs[k] + 1], dtype=object) for k in keys}
         r4 = mass_fractions(dict(arrc), substances=subs)
         kept = all(arrc[k][0] is coeffs[k] for k in keys)
+        # other kinds of mixture mappings: a Counter (whose update() ADDS), an OrderedDict, a set (unit multiplicities) with a registry
+        # that holds MORE substances than the mixture
+        from collections import Counter, OrderedDict as OD
+        r5 = mass_fractions(Counter(coeffs), substances=subs)
+        r6 = mass_fractions(OD(reversed(list(coeffs.items()))), substances=subs)
+        reg = OD(subs)
+        reg["Xtra"] = Substance("Xtra", composition={1: 1}, data={"mass": masses[keys[0]]})
+        r7 = mass_fractions(set(keys), substances=reg)
+        kinds.append((r5, r6, r7))
         return r1, r2, r3, r4, kept
 
     def goal(p, twin=False):
@@ -244,6 +263,12 @@ def task_fractions(nsub):
         if twin:
             return eq_term(r1[keys[0]] * tot, coeffs[keys[0]] * masses[keys[0]] * 2)
         conds = [eq_term(sum(r1.values()), 1), eq_term(sum(r2.values()), 1)]
+        r5, r6, r7 = kinds[-1]
+        if set(r5) != set(keys) or set(r6) != set(keys) or set(r7) != set(keys):
+            return False
+        totm = sum(masses[k] for k in keys)
+        for k in keys:
+            conds += [eq_term(r5[k] * tot, coeffs[k] * masses[k]), eq_term(r6[k] * tot, coeffs[k] * masses[k]), eq_term(r7[k] * totm, masses[k])]
         tot2 = sum((2 * coeffs[k] + 1) * masses[k] for k in keys)
         for k in keys:
             conds += [eq_term(r1[k] * tot, coeffs[k] * masses[k]), lift(r1[k]) > 0, eq_term(r3[k] * tot, coeffs[k] * masses[k]),
